@@ -584,6 +584,12 @@ func (r *ChunkReader) NextChunk() (Chunk, error) {
 			}
 		}
 		for n := int32(r.currNode.arity()); r.nextChunk < n; {
+			if !r.currNode.isLeaf(int(r.nextChunk)) {
+				// A Branch Node child (which can follow Leaf Node children
+				// in the same parent) is not a chunk. Re-resolving the seek
+				// position, below, descends into it.
+				break
+			}
 			c := r.currNode.chunk(int(r.nextChunk), r.currNodeCBias, r.currNodeDBias)
 			r.nextChunk++
 			r.seekPosition = c.DRange[1]
